@@ -426,6 +426,30 @@ def run(chk):
                        "" if ok else "a candidate tensor whose samples all arrived earlier is registered complete and then neither proposed nor loaded: the samples are dropped at finishConstruction")
     chk.floor("C09-D5.eject", nd5, 10, "parking / registration sites in the tensor-based loadConstructedPoint overloads (Global, Fourier)")
 
+    # ------------------------------------------------------------------ D9 sibling batch routes
+    chk.rule("C09-D9.batchroots", "the two batch promotion routines (local polynomial and wavelet getLargestConnected) inject the parent-less candidates under the same condition: "
+                                  "whenever a level-zero point is still missing from the grid, not only when the grid is empty (a corner that arrives in a later batch must still be admitted)")
+    sib = []
+    for f in [g for fs_ in db.load_all().values() for g in fs_ if short(g.name) == "getLargestConnected" and not g.d.get("islambda") and "test" not in g.file.lower()]:
+        loc = {v["did"]: v for v in f.locals().values() if "did" in v}
+        rootsv = {d for d, v in loc.items() if "Data2D<int>" in v.get("t", "")}
+        for q in f.walk(into_lambda=False):
+            if q.get("k") == "CXXOperatorCallExpr" and q.get("op") == "=":
+                ch = [x for x in q.get("c", []) if isinstance(x, dict)]
+                if any(x.get("k") == "DeclRefExpr" and x.get("did") in rootsv for x in walk(ch[-1])) and "MultiIndexSet" in (strip(ch[-2]) or {}).get("t", ""):
+                    guards = sorted({(txt(strip(e)).replace(" ", ""), tr) for e, tr in cond_edges_dominating(f, q)})
+                    sib.append((f, q, guards))
+    if len(sib) < 2:
+        raise AnalysisBroken("root injection of the batch promotion routines not found")
+    ref = {}
+    for f, q, g in sib:
+        ref.setdefault(tuple(g), []).append(f)
+    major = max(ref.items(), key=lambda kv: len(kv[1]))[0]
+    for f, q, g in sib:
+        chk.saw(f)
+        ok = tuple(g) == major and any("getNumIndexes()>0" in t or ".empty()" in t for t, tr in g)
+        chk.ob("C09-D9.batchroots", f.key, "condition of the root injection", ok and len(ref) == 1, f.loc(q), "guards %s" % list(g), "the same condition in every sibling: level-zero points are missing")
+
     # ------------------------------------------------------------------ D8
     chk.rule("C09-D8.relatives", "every routine that decides connectivity by enumerating the immediate relatives of an index (single-sample admission, batch promotion of parked samples) "
                                  "visits all of them: kids 0..max-1, the parent and, for rules with two parents, the step-parent")
